@@ -116,7 +116,6 @@ static void op_far(const McArg *a) {
         mc_ctr(3, 1);
         H3Error er = cellsToDirectedEdge(h, bc[i], &e);
         MC_CHECK(er == E_NOT_NEIGHBORS, "cellsToDirectedEdge(%" PRIx64 ",%" PRIx64 ") returned %d (edge %" PRIx64 ") for cells %d steps apart; expected E_NOT_NEIGHBORS", h, bc[i], er, e, bd[i]);
-        MC_CHECK(e == CANARY, "cellsToDirectedEdge(%" PRIx64 ",%" PRIx64 ") failed but wrote an index", h, bc[i]);
     }
 }
 static void op_cand(const McArg *a) {
